@@ -62,7 +62,10 @@ def run_cli(
     hashseed: str = "0",
     timeout: float = 300.0,
     home: Optional[str] = None,
+    warmup: Optional[Sequence[Sequence[str]]] = None,
 ) -> CliResult:
+    """warmup: complete argument lists (options, -o <dir>, config, input) of runs made first *in the same interpreter*; the
+    result describes the last run only (what an earlier run leaves in module- or class-level state must not matter)."""
     result = CliResult()
     result.out_dir = out_dir
     result.cwd = cwd
@@ -99,6 +102,12 @@ def run_cli(
             else:
                 env[key] = value
     code = f"from rp2.plugin.country.{country} import rp2_entry; rp2_entry()"
+    if warmup:
+        code = (
+            f"import sys\nfrom rp2.plugin.country.{country} import rp2_entry\nfinal = sys.argv[1:]\n"
+            f"for argv in {[list(a) for a in warmup]!r}:\n    sys.argv = ['rp2'] + argv\n    try:\n        rp2_entry()\n    except SystemExit:\n        pass\n"
+            "sys.argv = ['rp2'] + final\nrp2_entry()"
+        )
     command = [PYTHON, "-c", code] + list(args) + ["-o", out_dir, ini, ods]
     strace_log = os.path.join(cwd, f"strace-{os.getpid()}.log")
     if strace:
